@@ -52,6 +52,19 @@ def _ops():
             mp_io.graph(root, 0)
         return buf.getvalue()
 
+    def every_path(root):
+        """every distinct name path below root (each prefix of it too), in a fixed order"""
+        paths = set()
+
+        def go(n, pre):
+            for c in n.children:
+                p = pre + (c.name,)
+                if len(p) <= 6 and p not in paths:
+                    paths.add(p)
+                go(c, p) if len(p) < 6 else None
+        go(root, ())
+        return sorted(paths)
+
     first_name = lambda root: (root.children[0].name if root.children else "zz")  # noqa: E731
     return {
         "validate_node_ff": lambda r: validate.node(pick(r, 1)),
@@ -74,6 +87,10 @@ def _ops():
         "find_all_descendants": lambda r: fad(r, pick(r, 4).name),
         "single_by_path": lambda r: r.find_single_node_by_path([x.name for x in pick(r, 5).get_ancestry()][1:]),
         "all_by_path": lambda r: r.find_all_nodes_by_path([x.name for x in pick(r, 6).get_ancestry()][1:]),
+        "all_by_path_every": lambda r: [r.find_all_nodes_by_path(list(p)) for p in every_path(r)],
+        "single_by_path_every": lambda r: [r.find_single_node_by_path(list(p)) for p in every_path(r)],
+        "find_all_children_every": lambda r: [n.find_all_children(x) for n in walk(r) for x in sorted({c.name for c in n.children})],
+        "find_all_descendants_every": lambda r: [fad(r, x) for x in sorted({n.name for n in walk(r)})],
         "get_ancestry": lambda r: pick(r, 7).get_ancestry(),
         "child_index": lambda r: r.child_index(pick(r, 8)),
         "child_insert_index": lambda r: rule_for(r).child_insert_index(r, Node(first_name(r))),
